@@ -14,12 +14,17 @@ MUTS = [
  ("M11 gather on_finish ignores failures", "execution/runtime/threadpool.py", "        except Exception as err:\n            outer.set_exception(err)\n            return\n", "        except Exception as err:\n            pass\n", ["C08"]),
  ("M12 serial cb does not wait for the field (next started eagerly)", "execution/executor.py", "                return self.runtime.map_value(\n                    self.resolve_field(parent_type, root, f, n, path + [k]), cb\n                )", "                pending_value = self.resolve_field(parent_type, root, f, n, path + [k])\n                nxt = _next()\n                return self.runtime.map_value(\n                    pending_value, lambda v: (resolved_fields.__setitem__(k, v), nxt)[1]\n                )", ["C09"]),
 ]
+MUTS.append(("S1 seeded C08-a: gather_futures fast path for settled siblings", None, "/verif/seeded/C08-a/patch.diff", None, ["C08"]))
+MUTS.append(("S2 seeded C09-a: execute() dispatches on root_type identity", None, "/verif/seeded/C09-a/patch.diff", None, ["C09"]))
 only = sys.argv[1:]
 env = dict(os.environ, PYGQL_REPO=WT)
 for name, f, old, new, props in MUTS:
     if only and name.split()[0] not in only: continue
     subprocess.run(["git","-C",WT,"checkout","-q","--","."],check=True)
-    p=os.path.join(WT,"src/py_gql",f); s=open(p).read(); assert s.count(old)>=1,(name,"pattern not found"); open(p,"w").write(s.replace(old,new,1))
+    if f is None:
+        subprocess.run(["git","-C",WT,"apply",old],check=True)
+    else:
+        p=os.path.join(WT,"src/py_gql",f); s=open(p).read(); assert s.count(old)>=1,(name,"pattern not found"); open(p,"w").write(s.replace(old,new,1))
     for P in props:
         r=subprocess.run(["./check",P,"--tier","quick"],cwd="/verif",env=env,stdout=subprocess.PIPE,stderr=subprocess.DEVNULL,text=True)
         lines=[l for l in r.stdout.splitlines() if l.startswith("VIOLATION") or l.startswith("KNOWN")]
